@@ -224,12 +224,16 @@ impl Val for usize {
             }
             return out;
         }
-        let stride: usize = match rng.below(6) {
+        let stride: usize = match rng.below(9) {
             0 => 0,
             1 => 1,
             2 => rng.range(2, 9),
             3 => 1 << 31,
             4 => 1 << 62,
+            // strides whose next multiple does not fit in a usize
+            5 => 1 << 63,
+            6 => usize::MAX,
+            7 => (1 << 63) + rng.below(3),
             _ => rng.next() as u32 as usize,
         };
         let start_zero = rng.chance(5, 6);
@@ -244,11 +248,13 @@ impl Val for usize {
             out.push(last);
         }
         while out.len() < n {
-            let v = match rng.below(5) {
+            let v = match rng.below(7) {
                 0 => last,
                 1 => last.wrapping_add(stride),
                 2 => *rng.pick(&USIZE_HOSTILE),
                 3 => rng.below(8),
+                4 => usize::MAX,
+                5 => last.saturating_add(stride),
                 _ => rng.next() as usize,
             };
             last = v;
